@@ -65,12 +65,25 @@ Print Assumptions C22_fact_drawn_once.
 
 (* The printed probability (self.probability after compute_probability) of every sample equals
    the probability with which the sampler produces that sample, for every adaptive encounter
-   strategy whose calls satisfy the local side conditions `ok` (0<=p<=1 for facts, 0<=p<=r for
-   an AD head met with remaining mass r>=1e-8, p=0 below the cut-off). *)
-Theorem C22_printed_probability : forall s st' w',
+   strategy.
+   FULL STATEMENT (not proved, hence `_partial`):
+     forall (T : list call) s, NoDup (map c_id T) -> (every fact of T has 0<=p<=1, every AD head has p=0 or p>=1e-8,
+       every group of T has sum p <= 1) -> (every call of s is in T or deterministic) ->
+     forall st' w', In (st', w') (sdist s init 1) -> w' == printed st'.
+   PROVED: the same conclusion under the side condition `ok s init`, which states the consequences of
+   well-formedness at the states the strategy reaches: 0<=p<=1 for a new fact, 0<=p<=r for a new AD head met
+   with remaining mass r>=1e-8, p=0 below the cut-off.  MISSING: the invariant "remaining mass r of an open
+   group = 1 - sum of its memoised heads", which derives `ok` from the well-formedness of T. *)
+Theorem C22_printed_probability_partial : forall s st' w',
   ok s init -> In (st', w') (sdist s init 1) -> w' == printed st'.
 Proof. exact printed_weight_init. Qed.
-Print Assumptions C22_printed_probability.
+Print Assumptions C22_printed_probability_partial.
+
+(* `ok` is satisfiable by a real run: fact, then two heads of one AD, then the fact again *)
+Example C22_ok_example :
+  ok (of_list [mkCall 5 None (Some (1#2)); mkCall 1 (Some 9%N) (Some (1#4)); mkCall 2 (Some 9%N) (Some (3#4));
+               mkCall 5 None (Some (1#2))]) init.
+Proof. vm_compute. intuition discriminate. Qed.
 
 (* Rejection: within any number of attempts, the first accepted sample is distributed as the
    sample distribution conditioned on the evidence *)
